@@ -412,9 +412,9 @@ func (d *jsonDecoder) unmarshalScalar(fd protoreflect.FieldDescriptor) (protoref
 	case protoreflect.Uint64Kind, protoreflect.Fixed64Kind:
 		return jsonIntDecode(fd, d.dec, 64, strconv.ParseUint, protoreflect.ValueOfUint64)
 	case protoreflect.FloatKind:
-		return jsonFloatDecode(fd, d.dec, protoreflect.ValueOfFloat32)
+		return jsonFloatDecode(fd, d.dec, 32, protoreflect.ValueOfFloat32)
 	case protoreflect.DoubleKind:
-		return jsonFloatDecode(fd, d.dec, protoreflect.ValueOfFloat64)
+		return jsonFloatDecode(fd, d.dec, 64, protoreflect.ValueOfFloat64)
 	case protoreflect.StringKind:
 		return jsonValueDecode(d.dec, protoreflect.ValueOfString)
 	case protoreflect.BytesKind:
@@ -488,22 +488,32 @@ func jsonIntDecode[P constraints.Integer, T constraints.Integer](
 	return convert(T(i)), nil
 }
 
-func jsonFloatDecode[T constraints.Float](fd protoreflect.FieldDescriptor, dec *json.Decoder, convert func(T) protoreflect.Value) (protoreflect.Value, error) {
+func jsonFloatDecode[T constraints.Float](fd protoreflect.FieldDescriptor, dec *json.Decoder, bitSize int, convert func(T) protoreflect.Value) (protoreflect.Value, error) {
+	// Numbers are kept as literals, so that they are parsed once with the precision of the field,
+	// which rounds correctly and reports values out of range for the field.
+	dec.UseNumber()
+
 	tok, err := dec.Token()
 	if err != nil {
 		return protoreflect.Value{}, err
 	}
 
+	var literal string
+
 	switch tok := tok.(type) {
-	case float64:
-		return convert(T(tok)), nil
+	case json.Number:
+		literal = string(tok)
 	case string:
 		// this supports NaN, -Infinity, +Infinity
-		f, err := strconv.ParseFloat(tok, 64)
-		if err == nil {
-			return convert(T(f)), nil
-		}
+		literal = tok
+	default:
+		return protoreflect.Value{}, fmt.Errorf("invalid value for %v type: %v", fd.Kind(), tok)
 	}
 
-	return protoreflect.Value{}, fmt.Errorf("invalid value for %v type: %v", fd.Kind(), tok)
+	f, err := strconv.ParseFloat(literal, bitSize)
+	if err != nil {
+		return protoreflect.Value{}, fmt.Errorf("invalid value for %v type: %v", fd.Kind(), tok)
+	}
+
+	return convert(T(f)), nil
 }
